@@ -59,8 +59,11 @@ StripLeft(q) == IF q # <<>> /\ q[1] = "0" THEN StripLeft(Tail(q)) ELSE q
 RECURSIVE StripRight(_)     \* trailing zeros removed
 StripRight(q) == IF q # <<>> /\ q[Len(q)] = "0" THEN StripRight(SubSeq(q, 1, Len(q) - 1)) ELSE q
 
-\* padding dimension: absent or zero = the terminal-relative default
-PadDen(q) == LET c == StripLeft(q) IN IF c = <<>> THEN "default" ELSE Str(c)
+\* padding dimension: absent = the terminal-relative default (terminal width; terminal
+\* height - 2); zero = relative to the terminal with offset zero, as draw() documents for
+\* non-positive values (for the width the two coincide); otherwise absolute
+PadDen(q) == IF q = <<>> THEN "default"
+             ELSE LET c == StripLeft(q) IN IF c = <<>> THEN "zero" ELSE Str(c)
 
 \* alpha threshold ".ddd" denotes the decimal fraction 0.ddd
 ThresholdDen(q) == LET c == StripRight(q) IN IF c = <<>> THEN "0.0" ELSE "0." \o Str(c)
